@@ -153,7 +153,7 @@ impl Prop for C01 {
                 if suite == "ed448" && n > 4 {
                     continue;
                 }
-                let mut kinds = vec!["wire-bin", "wire-json", "refresh-dealer", "refresh-dkg", "repair", "legacy-pkp"];
+                let mut kinds = vec!["wire-bin", "wire-json", "refresh-dealer", "refresh-dkg", "repair", "legacy-pkp", "preprocessed"];
                 if suite == "secp256k1-tr" {
                     kinds.extend(["tr-tweak-none", "tr-tweak-empty", "tr-tweak-root"]);
                 }
@@ -348,6 +348,59 @@ fn run_provenance<C: Suite>(c: &Case) -> Outcome {
         "wire-bin" | "wire-json" => {
             let s = pick::<C>(&grp.ids, *signers);
             session_over_the_wire::<C>(&mut o, &tag, &ctx, kind == "wire-json", &grp.kps, &grp.pkp, &s, &message(3), &format!("{seed}:{signers}"));
+        }
+        "preprocessed" => {
+            // one-round FROST: every signer preprocesses a batch of 4 pairs up front; session j uses the j-th
+            // nonces with the j-th published commitments
+            let s = pick::<C>(&grp.ids, *signers);
+            let mut batches = BTreeMap::new();
+            for id in &s {
+                let mut rng = crate::rng::ScriptedRng::ctr(format!("{seed}:preprocess:{}", id_hex::<C>(id)));
+                batches.insert(*id, fc::round1::preprocess::<C, _>(4, grp.kps[id].signing_share(), &mut rng));
+            }
+            for j in [0usize, 1, 3] {
+                let m = message(j);
+                let mut comms = BTreeMap::new();
+                for id in &s {
+                    let (_, cs) = &batches[id];
+                    match cs.get(j) {
+                        Some(c) => {
+                            comms.insert(*id, *c);
+                        }
+                        None => {
+                            o.fail(format!("{tag}/preprocess-count"), format!("{ctx}: batch of 4 has no commitment #{j}"));
+                            return o;
+                        }
+                    }
+                }
+                let pkg = SigningPackage::<C>::new(comms, &m);
+                let mut shares = BTreeMap::new();
+                o.eval(true);
+                for id in &s {
+                    let (ns, _) = &batches[id];
+                    match ns.get(j).map(|nn| C::w_sign(&pkg, nn, &grp.kps[id])) {
+                        Some(Ok(sh)) => {
+                            shares.insert(*id, sh);
+                        }
+                        Some(Err(e)) => {
+                            o.fail(format!("{tag}/sign-refused"), format!("{ctx}: preprocessed pair #{j} of signer {}: {e:?}", id_short::<C>(id)));
+                            return o;
+                        }
+                        None => {
+                            o.fail(format!("{tag}/preprocess-count"), format!("{ctx}: batch of 4 has no nonces #{j}"));
+                            return o;
+                        }
+                    }
+                }
+                match C::w_aggregate(&pkg, &shares, &grp.pkp) {
+                    Ok(sig) => match verify_everywhere::<C>(grp.pkp.verifying_key(), &m, &sig) {
+                        Ok(()) => o.count("preprocessed_sessions_verified", 1),
+                        Err(e) => o.fail(format!("{tag}/signature-does-not-verify"), format!("{ctx}: preprocessed pair #{j}: {e}")),
+                    },
+                    Err(e) => o.fail(format!("{tag}/aggregate-failed"), format!("{ctx}: preprocessed pair #{j}: {e:?}")),
+                }
+            }
+            o.class("ok");
         }
         "legacy-pkp" => {
             // the pre-3.0 public key package has no threshold: honest sessions aggregate all the same
